@@ -323,8 +323,11 @@ theorem callFor_genOf (S : Schema) (mk : Nat → Res Val) (hmk : ∀ c, mk c = .
     what PyPreludeObj.lean assumes under the name `Py.getFieldDefault` -/
 theorem get_field_default_eq (S : Schema) (mk : Nat → Res Val) (hmk : ∀ c, mk c = .ok (fresh S c))
     (fs : List FieldD) (self : Inst) (k : Nat) (hg : ∀ f, fs[k]? = some f → mapNotRepeated f = true) :
-    SrcMeta.get_field_default mk fs self k = Py.getFieldDefault S fs k := by
-  unfold SrcMeta.get_field_default Py.getFieldDefault
+    SrcMeta.get_field_default mk fs self k =
+      (match fs[k]? with
+       | some f => .ok (defaultOf S f)
+       | Option.none => .raise .key) := by
+  unfold SrcMeta.get_field_default
   simp only [init_eq, res_bind_ok]
   cases h : fs[k]? with
   | none =>
